@@ -2811,13 +2811,16 @@ impl<I: SignedInteger> FromBitStreamUsing for Residuals<I> {
             let partition_order = reader.read::<4, u32>()?;
             let partition_count = 1 << partition_order;
 
+            // same rules as the streaming decoder: the block divides evenly
+            // into partitions and the first one is not used up by the predictor
+            let partition_len = block_size / partition_count;
+            if !block_size.is_multiple_of(partition_count) || partition_len <= predictor_order {
+                return Err(Error::InvalidPartitionOrder);
+            }
+
             (0..partition_count)
                 .map(|p| {
-                    reader.parse_using(
-                        (block_size / partition_count)
-                            .checked_sub(if p == 0 { predictor_order } else { 0 })
-                            .ok_or(Error::InvalidPartitionOrder)?,
-                    )
+                    reader.parse_using(partition_len - if p == 0 { predictor_order } else { 0 })
                 })
                 .collect()
         }
